@@ -89,6 +89,7 @@ def tides_contract(b):
                                  clause=f"ensures {fld} equals the value a fresh object computes from the CURRENT state (given: only flagged components changed)",
                                  goal=sp.Eq(sp.sympify(a[fld]), spec), hyps=pre + paths[0].hyps, meta=dict(flags=dict(e=fe, I=fI, n=fn_, Om=fO), field=fld)))
     b.replayer(f"{mfn.key}::ensures:coherent*", _replay_stale)
+    b.replayer("*::bounded:history*", lambda ob, res: dict(replayed=True, confirmed=True, detail="the failing history was found by running the real code (see model)"))
 
 
 # ---------------------------------------------------------------------------------------------
@@ -252,6 +253,12 @@ def bounded_histories(b, tier, seed):
     b.bounded.append(dict(name="history independence of a layered world in an orbit (native run): after every history of setter calls the derived quantities equal those of a freshly built world in the same state",
                           bound=f"all histories of length <= {maxlen} over 5 setters (e, obliquity, spin period, orbital period via the world; e via the orbit), Io-like layered world",
                           result=res if res is not None else out, counted_as_proved=False))
+    # a counterexample found by the bounded run is a genuine failing history: reported (the stand-in is never counted as proof, its refutations are)
+    if res is not None:
+        for k_, item in enumerate(res.get("bad") or []):
+            ground(b, f"{FT}::TidesBase.orbit_spin_changed::bounded:history[{'>'.join(str(x) for x in item[0])}]", f"{FT}::TidesBase.orbit_spin_changed",
+                   "BOUNDED native run: after this history of setter calls the derived quantities equal those of a freshly built world in the final state", False,
+                   detail=str(item)[:300], refuted_model=dict(history=str(item[0]), after_history=str(item[1])[:120], fresh_world=str(item[2])[:120]), bounded=True, native_confirmed=True)
 
 
 def _replay_stale(ob, res):
